@@ -123,6 +123,24 @@ func (h resumeHarness) Gen(r *verifsim.SplitMix, tier string, idx int) any {
 		sp.Chain = nil
 		sp.Damage = append(sp.Damage, txDamage{Kind: "synthetic", File: r.Intn(8), Arg: r.Intn(1 << 20)})
 	}
+	if h.prop == "C06" && r.Chance(1, 12) {
+		// the verification itself is the weak point: a directly written prior state with its
+		// highest marked chunk torn, and a receiver whose disk is too slow for the 2 s
+		// deadline of its verification hash
+		sp.Tail = []uint32{0, 0, 1}[r.Intn(3)]
+		if sp.Hash == "none" {
+			sp.Hash = "crc32c"
+		}
+		f := r.Intn(8)
+		sp.Chain = nil
+		sp.Damage = []txDamage{{Kind: "synthetic", File: f, Arg: r.Intn(1 << 20)}, {Kind: "tear_highest", File: f}}
+		sp.SlowHashMs = []int{2500, 4000}[r.Intn(2)]
+		return sp
+	}
+	if h.prop == "C06" && r.Chance(1, 8) {
+		// the receiver's disk is slow under its verification hash (the hash has a 2 s deadline)
+		sp.SlowHashMs = []int{1500, 2500, 4000}[r.Intn(3)]
+	}
 	if h.prop == "C06" {
 		nd := 1 + r.Intn(2)
 		for i := 0; i < nd; i++ {
